@@ -236,13 +236,20 @@ def run(repo: Repo, chk: Check, thorough: bool = False) -> None:
         else:
             detail = f'{len(lines)} _generateLine call(s) and {len(rec)} recursive call(s) per subject (expected 1 and 1)'
     chk.ob('R17.4', f'{WRITER}._generateContent :: one line per object, whole subtree', ok, detail, gc.loc)
+    from ..util import loop_exits
+    for lp in loops:
+        cut = loop_exits(lp)
+        chk.ob('R17.4', f'{WRITER}._generateContent :: an invisible object is skipped, its siblings are not', not cut,
+               'no break / return inside the loop over the subjects' if not cut else
+               f'`{norm(cut[0])}` (line {cut[0].lineno}) ends the loop: every visible object listed after the first hidden sibling, with its whole '
+               'subtree, is missing from objects.inv', repo.loc(gc.mod, lp))
     gen = repo.func(f'{WRITER}.generate')
     comp = [c for c in calls_in(gen) if call_name(c) == 'compress']
     hdr = [c for c in calls_in(gen) if call_name(c) == '_generateHeader']
     chk.ob('R17.4', f'{WRITER}.generate :: header then compressed content', bool(comp) and bool(hdr) and
            CFG(gen).before(hdr[0], comp[0]) if comp and hdr else False,
            'header written before the zlib-compressed content (what _getPayload strips and inflates)', gen.loc)
-    chk.require('R17.4', 8)
+    chk.require('R17.4', 9)
 
     # ------------------------------------------------------------ R17.5 the inventory lists what was written
     mk = repo.func('pydoctor.driver.make')
